@@ -27,24 +27,14 @@ func (f *Frame) String() string {
 }
 
 func (f *Frame) Read(r io.Reader) ([]byte, error) {
-	buf := framePool.Get().(*[]byte) // nolint:errcheck
-	defer framePool.Put(buf)
-
-	lr := io.LimitReader(r, int64(f.size))
-	var bin []byte
-	var read int
-	for {
-		n, err := lr.Read(*buf)
-		if err != nil {
-			return nil, err // probably EOF, but raise an error
-		}
-		read += n
-		bin = append(bin, (*buf)[:n]...)
-		if read == f.size {
-			break
-		}
+	// Zero-length payload (e.g. empty string literal) is valid, nothing to read
+	bin := make([]byte, f.size)
+	if f.size == 0 {
+		return bin, nil
 	}
-
+	if _, err := io.ReadFull(r, bin); err != nil {
+		return nil, err // probably EOF, but raise an error
+	}
 	return bin, nil
 }
 
